@@ -293,6 +293,28 @@ def expect(ops, leaky=()):
     return out, ref
 
 
+def tlc_expect(ops):
+    """The expectation of a given history re-derived by TLC (spec/heap/MCGcDriven.tla drives GcSpec with the script);
+    it must coincide with Ref's."""
+    os.makedirs(vlib.WORK, exist_ok=True)
+    path = os.path.join(vlib.WORK, f"c09-script-{os.getpid()}.ndjson")
+    with open(path, "w") as f:
+        for o in ops:
+            f.write(json.dumps(bare(o)) + "\n")
+    got = []
+    r = vlib.run_tlc(os.path.join(SPECDIR, "MCGcDriven.tla"), "MCGcDriven.cfg", workers=1, timeout=600,
+                     env_extra={"SCRIPT": path}, on_tagged=lambda t, o: got.append(o) if t == "REPLAY" else None)
+    os.unlink(path)
+    vlib.tlc_must_pass(r, "MCGcDriven")
+    if len(got) != 1 or len(got[0]) != len(ops):
+        raise vlib.ToolError(f"MCGcDriven could not execute the history {short(ops)}")
+    mine, _ = expect([bare(o) for o in ops])
+    theirs = [{k: (sorted(v) if isinstance(v, list) else v) for k, v in e.items()} for e in got[0]]
+    if mine != theirs:
+        raise vlib.ToolError(f"oracle disagreement (MCGcDriven vs Ref) on {short(ops)}")
+    return theirs
+
+
 def renumber(ops):
     """Canonical ids: nodes, weak rows (incl. the rows weak-map inserts consume) and maps in creation order."""
     nm, rm, mm = {}, {}, {}
@@ -415,11 +437,23 @@ class Judge:
         return None
 
 
+OPCOUNT = {}
+
+
 def crosscheck(exp):
     """TLC's expectation must equal the Python transcription on every operation; returns (Ref, nontrivial)."""
     ref = Ref()
     nontrivial = False
     for i, e in enumerate(exp):
+        k = e["op"]
+        OPCOUNT[k] = OPCOUNT.get(k, 0) + 1
+        if k == "collect":
+            if e["fin"]:
+                OPCOUNT["collect:fin"] = OPCOUNT.get("collect:fin", 0) + 1
+            if e["res"]:
+                OPCOUNT["collect:res"] = OPCOUNT.get("collect:res", 0) + 1
+        elif k in ("upgrade", "ephval") and e["r"] == 0:
+            OPCOUNT[k + ":none"] = OPCOUNT.get(k + ":none", 0) + 1
         try:
             mine = ref.apply(bare(e))
         except (Invalid, KeyError, IndexError) as x:
@@ -500,7 +534,7 @@ class Runner:
         (every way of resurrecting an unreachable node fails the same way in the pinned tree)."""
         done = 0
         for exp, f, r in fails:
-            if f["res_class"]:
+            if f["res_class"] and any(k.get("signature") == RES_CLASS for k in self.ck.known):
                 self.res_class_hits += 1
                 self.ck.failure(RES_CLASS, {"history": exp, "failure": f, "observed": r, "short": short(exp)})
                 continue
@@ -509,6 +543,7 @@ class Runner:
                 continue
             done += 1
             sexp, sf, sr = self.shrink(exp, f)
+            tlc_expect(sexp)        # the expectation of the reported history is TLC's
             sig = short(sexp)
             self.ck.failure(sig, {"history": sexp, "failure": sf, "observed": sr, "original": short(exp), "short": sig})
 
@@ -643,8 +678,9 @@ class Replayer:
                 f = self.runner.run_batch(hists, label)
                 self.counts[label] = self.counts.get(label, 0) + len(hists)
                 self.samples.setdefault(label, short(hists[len(hists) // 2]))
-                res = [x for x in f if x[1]["res_class"]]
-                oth = [x for x in f if not x[1]["res_class"]]
+                known_class = any(k.get("signature") == RES_CLASS for k in self.runner.ck.known)
+                res = [x for x in f if x[1]["res_class"] and known_class]
+                oth = [x for x in f if not (x[1]["res_class"] and known_class)]
                 self.runner.res_class_hits += max(0, len(res) - 3)     # the first three are reported individually
                 self.fails += res[:3] + oth[:200]
                 if len(oth) > 200:
@@ -681,10 +717,11 @@ def run(tier, replay=None):
     if replay:
         d = json.load(open(replay))["detail"]
         ops = [bare(e) for e in d["history"]]
+        tlc_expect(renumber(ops))
         got = runner.still_fails(ops)
         if got is not None:
             exp, f, r = got
-            sig = RES_CLASS if f["res_class"] else short(exp)
+            sig = RES_CLASS if f["res_class"] and any(k.get("signature") == RES_CLASS for k in ck.known) else short(exp)
             ck.failure(sig, {"history": exp, "failure": f, "observed": r, "short": short(exp)})
         ck.cov.update(traces_validated_against_impl=1)
         return ck.finish()
@@ -700,7 +737,7 @@ def run(tier, replay=None):
     def gates():
         out = []
         for mod, cfg in gate_cfgs:
-            _, r = run_tlc_job(mod, cfg, 4, (), coverage=(mod == FULL))
+            _, r = run_tlc_job(mod, cfg, 4, ())
             vlib.log(f"[gate] {cfg}: {r['distinct']} distinct states, {r['states']} transitions, {r['wall']:.0f}s")
             out.append((cfg, r))
         return out
@@ -742,25 +779,21 @@ def run(tier, replay=None):
     for label, sm in rep.samples.items():
         ck.sample(f"{label}: {sm}")
     states = trans = 0
-    tlc_cov = {}
     for cfg, r in gate_f.result():
         states += r["distinct"]
         trans += r["states"]
         ck.cov.setdefault("checker_cmd", r["cmd"])
-        if cfg.startswith("MCGcImplFull"):
-            taken = check_coverage(r)
-            missing = [a for a in ACTIONS if taken.get(a, 0) == 0]
-            if missing:
-                raise vlib.ToolError(f"TLC coverage: actions of GcImpl never taken in {cfg}: {missing}")
-            tlc_cov = taken
+    never = action_coverage(OPCOUNT)
+    if never:
+        raise vlib.ToolError(f"vacuity guard: actions of the MC specs never taken in the emitted behaviours: {never}")
+    tlc_cov = dict(sorted(OPCOUNT.items()))
     ck.cov.update(states=states, transitions=trans, emission_states=model_states,
                   traces_validated_against_impl=runner.replayed, evaluations=runner.judge.evals,
                   distinct_nontrivial=runner.nontrivial, resurrection_class_failures=runner.res_class_hits,
                   replays=rep.counts, exhaustive=True,
                   rule="non-trivial = a history with a collection that freed, or retained without a mutator handle, a node "
                        "that lies on a cycle of heap edges or is the value of a live ephemeron / weak-map entry")
-    if tlc_cov:
-        ck.cov["tlc_coverage"] = tlc_cov
+    ck.cov["tlc_coverage"] = tlc_cov
     if longest:
         ck.cov["longest_history_ops"] = longest
     floor = 5000 if quick else 100000
@@ -774,17 +807,16 @@ def run(tier, replay=None):
     return ck.finish()
 
 
-ACTIONS = ["Alloc", "Clone", "DropHandle", "Link", "Unlink", "Load", "MkWeak", "Upgrade", "DropWeak", "MkEph", "EphValue",
-           "DropEph", "MkWm", "WmInsert", "WmRemove", "WmGet", "DropWm", "StartCollect", "TraceNonRoots", "MarkStrong",
-           "MarkEphInit", "MarkEphRound", "Unreachables", "Finalize", "FinalizeWeak", "Release", "Sweep", "ClearWeakMaps"]
-
-
-def check_coverage(r):
-    """-coverage 1 prints `<Action line ..>: distinct:total`; an action of GcImpl that was never taken is a tool error."""
-    import re
-    taken = {}
-    for line in r["raw_tail"].splitlines():
-        m = re.match(r"^<(\w+) line \d+, col \d+ to line \d+, col \d+ of module GcImpl>: (\d+):(\d+)", line.strip())
-        if m:
-            taken[m.group(1)] = taken.get(m.group(1), 0) + int(m.group(3))
-    return taken
+def action_coverage(opcount):
+    """Every action of the MC specs leaves a trace in the emitted records: the mutator actions as operation kinds,
+    the collector phases as collect records (every collect runs TraceNonRoots, MarkStrong, MarkEphInit, MarkEphRound,
+    Unreachables, Sweep, ClearWeakMaps; Finalize / FinalizeWeak / Release run iff something was unreachable, which
+    shows as a non-empty `fin` or a cleared weak row). Returns the list of actions never taken."""
+    need = {"alloc": "Alloc", "clone": "Clone", "droph": "DropHandle", "link": "Link", "unlink": "Unlink", "load": "Load",
+            "weak": "MkWeak", "upgrade": "Upgrade", "dropw": "DropWeak", "eph": "MkEph", "ephval": "EphValue",
+            "drope": "DropEph", "wm": "MkWm", "wmins": "WmInsert", "wmrem": "WmRemove", "wmget": "WmGet",
+            "dropwm": "DropWm", "arm": "Arm", "collect": "StartCollect..ClearWeakMaps",
+            "collect:fin": "Finalize/FinalizeWeak/Release (something unreachable)",
+            "collect:res": "Finalize with an armed finalizer (resurrection)",
+            "upgrade:none": "Upgrade of a cleared WeakGc", "ephval:none": "EphValue of a cleared Ephemeron"}
+    return [a for k, a in need.items() if opcount.get(k, 0) == 0]
